@@ -161,11 +161,33 @@ pub fn type_name(v: &V) -> String {
         V::Str(_) => "String".into(),
         V::List(_) => "List".into(),
         V::Tuple(_) => "Tuple".into(),
-        V::Map(m) => m.type_name().unwrap_or_else(|| "Map".into()),
+        V::Map(m) => {
+            if m.meta.borrow().is_none() {
+                "Map".into()
+            } else {
+                // own @type, else the first @type along the @base chain, else Object
+                let mut cur: Option<Rc<MapObj>> = Some(m.clone());
+                let mut depth = 0;
+                while let Some(c) = cur {
+                    if let Some(t) = c.type_name() {
+                        return t;
+                    }
+                    depth += 1;
+                    if depth > 16 {
+                        break;
+                    }
+                    cur = match c.get_meta("@base") {
+                        Some(V::Map(b)) => Some(b),
+                        _ => None,
+                    };
+                }
+                "Object".into()
+            }
+        }
         V::Range(..) => "Range".into(),
         V::Func(f) => {
             if f.def.is_gen {
-                "Function".into()
+                "Generator".into()
             } else {
                 "Function".into()
             }
